@@ -26,6 +26,7 @@ ClassOk(cls, c) ==
     [] cls = "phi," -> c \in PhInline \cup {","}
     [] cls = "phd" -> c \in PhDisplay \cup {".", ",", ";", ":"} \cup LowerChars \cup {"U+043F","U+043B","U+044E","U+0441","U+0440","U+0430","U+0432","U+043D","U+043E"}   \* display: placeholders, punctuation, operator words
     [] cls = "phl" -> c \in PhLang
+    [] cls = "citesep" -> c = ","
     [] cls = "ipunct" -> c \in {".", ":", ",", ";", "!", "?"}
     [] cls = "label" -> c \in LowerChars \cup DigitChars \cup {"."}
     [] cls = "any" -> TRUE
